@@ -60,13 +60,13 @@ def random_lens(rng, n_elements=None, finite=None, vignetting=False, apertures=F
     else:
         lens.set_field_type('angle')
         fmax = rng.uniform(2, 10)
-    lens.add_field(y=0.0)
-    if vignetting:
-        lens.add_field(y=0.7 * fmax, vx=rng.uniform(0, 0.1), vy=rng.uniform(0, 0.1))
-        lens.add_field(y=fmax, vx=rng.uniform(0, 0.2), vy=rng.uniform(0, 0.2))
-    else:
-        lens.add_field(y=0.7 * fmax)
-        lens.add_field(y=fmax)
+    fl = [(0.0, 0.0, 0.0), (0.7 * fmax, rng.uniform(0, 0.1), rng.uniform(0, 0.1)), (fmax, rng.uniform(0, 0.2), rng.uniform(0, 0.2))]
+    rng.shuffle(fl)                      # fields are not necessarily entered in ascending order
+    for (fy, vx, vy) in fl:
+        if vignetting:
+            lens.add_field(y=fy, vx=vx, vy=vy)
+        else:
+            lens.add_field(y=fy)
     lens.add_wavelength(0.4861)
     lens.add_wavelength(0.5876, is_primary=True)
     lens.add_wavelength(0.6563)
